@@ -208,7 +208,7 @@ fn run(cfg: &RunCfg) -> Report {
     let bases = base_packets(cfg.seed);
     // generator self-check: every burst changes the reference CRC
     let mut idx = 0u64;
-    let burst_bases: usize = if small { 1 } else if cfg.thorough() { bases.len() } else { 40 };
+    let burst_bases: usize = if small { 1 } else if cfg.thorough() { bases.len() } else { 60 };
     for (bi, base) in bases.iter().enumerate() {
         idx += 1;
         if idx % ns != sh {
@@ -263,7 +263,7 @@ fn run(cfg: &RunCfg) -> Report {
         });
     }
     // (c)/(d) random damage and random strings, short sessions (fully replayable logs)
-    let nsess = if small { 4 } else { cfg.n(cfg.pick(6_000, 600_000)) / ns };
+    let nsess = if small { 4 } else { cfg.n(cfg.pick(40_000, 600_000)) / ns };
     for k in 0..nsess {
         let c = CtxCfg::random(&mut rng, true);
         let tid = if sh == 0 && k < 200 { Some(1000 + k) } else { None };
